@@ -302,6 +302,45 @@ func runC05(c *mon.Ctx) {
 	}
 	c05tableWalk(c, env)
 	mon.SchedTake()
+	if c.Mine(1) {
+		c.Case("second-config-after-crs-results-were-modified", func() {
+			rng := c.Rand("second-config")
+			// a caller asks for a few basis points, appends to the slice and overwrites entries - its own business ...
+			pts := ipa.GenerateRandomPoints(5)
+			pts = append(pts, banderwagon.Generator)
+			for i := range pts {
+				pts[i].Double(&pts[i])
+			}
+			all := ipa.GenerateRandomPoints(256)
+			for i := 0; i < len(all); i += 3 {
+				all[i].SetIdentity()
+			}
+			// ... a configuration built afterwards, and the one built before, must still be the CRS
+			conf2, err := ipa.NewIPASettings()
+			if err != nil {
+				c.Fail("error/NewIPASettings", err.Error(), nil)
+				return
+			}
+			for name, conf := range map[string]*ipa.IPAConfig{"earlier": env.Conf, "later": conf2} {
+				for i := range conf.SRS {
+					g, ok := ElemToRef(&conf.SRS[i])
+					if !ok || !ref.ClassEqual(g, env.Ref.SRS[i]) {
+						c.Fail("srs-differs-after-history/"+name, fmt.Sprintf("SRS[%d] of the %s configuration differs from the CRS after a caller modified slices returned by GenerateRandomPoints", i, name), nil)
+						break
+					}
+				}
+			}
+			v := make([]*big.Int, 256)
+			for i := range v {
+				v[i] = new(big.Int)
+			}
+			for _, pos := range []int{0, 3, 5, 6, 9, 255} {
+				v[pos] = randScalar(rng)
+			}
+			e2 := &Env{Conf: conf2, Ref: env.Ref}
+			c05check(c, e2, v, "second-config|after-modified-crs-results", false, rng)
+		})
+	}
 
 	// ---- sparse digit-pattern commits ----
 	covered := map[int]bool{}
